@@ -363,6 +363,8 @@ def eval_case(c):
                 m.compute()
             elif op == "serialize":
                 m.serialize()
+            elif op == "rebuild":
+                m = type(m).deserialize(m.serialize())          # continue with the model rebuilt from its own tree
             elif op == "rotator":
                 before = _answers(m, Ds[last], cross)
                 names_before = {k: (v.name, tuple(v.dims)) for k, v in m.data.items()}
@@ -409,18 +411,20 @@ def eval_case(c):
 def bounded_cases(tier, seed):
     rng = np.random.default_rng(seed)
     alphabet = [("fit", "D1"), ("fit", "D2"), ("fit", "D3"), ("fit", "Dds"), ("fit", "Dlist"), ("transform", "D1"), ("transform", "D2"),
-                ("inverse_transform", None), ("components", None), ("scores", None), ("compute", None), ("serialize", None),
+                ("inverse_transform", None), ("components", None), ("scores", None), ("compute", None), ("serialize", None), ("rebuild", None),
                 ("rotator", 1), ("rotator", 2), ("bootstrapper", None)]
     cases = []
     fixed = [[("fit", "D1"), ("fit", "D2")], [("fit", "D1"), ("fit", "D3")], [("fit", "Dds"), ("fit", "D1")], [("fit", "D1"), ("fit", "Dlist")],
              [("fit", "D1"), ("transform", "D2"), ("scores", None)], [("fit", "D1"), ("rotator", 1)], [("fit", "D1"), ("rotator", 2), ("scores", None)],
              [("fit", "D1"), ("bootstrapper", None)], [("fit", "D1"), ("compute", None), ("transform", "D2"), ("compute", None)],
-             [("fit", "D2"), ("serialize", None), ("inverse_transform", None), ("fit", "D1")]]
+             [("fit", "D2"), ("serialize", None), ("inverse_transform", None), ("fit", "D1")],
+             [("fit", "D1"), ("transform", "D1"), ("fit", "D2"), ("transform", "D2"), ("scores", None)],
+             [("fit", "D1"), ("rebuild", None), ("compute", None)], [("fit", "D2"), ("compute", None), ("rebuild", None), ("compute", None), ("transform", "D2")]]
     for model in ("EOF", "ComplexEOF", "SparsePCA", "POP", "MCA", "CPCCA"):
         for ops in fixed:
             if model in ("MCA", "CPCCA", "POP", "SparsePCA") and any(a in ("Dds", "Dlist") for _, a in ops):
                 continue
-            cases.append(dict(model=model, ops=ops, keep=model in ("EOF", "MCA")))
+            cases.append(dict(model=model, ops=ops, keep=model in ("EOF", "MCA") or (model == "POP" and len(ops) >= 3 and ops[-1][0] in ("compute", "scores", "transform"))))
         nrand = 6 if tier == "quick" else 40
         for _ in range(nrand):
             L = int(rng.integers(2, 9))
